@@ -73,7 +73,7 @@ Proof. exact lex_labels_ok. Qed.
 
 (** non-vacuity *)
 Example C07_example : exists ts, lex (txt "x <- ""é"" + 1.5"%string) = LexOk ts /\ length ts = 6%nat.
+Proof. exact lex_example. Qed.
 
 Example C07_uni_alnum_ascii_ok : C07_ascii_ok uni_alnum.
 Proof. exact uni_alnum_ascii_ok. Qed.
-Proof. exact lex_example. Qed.
